@@ -3,6 +3,7 @@ package main
 import (
 	"errors"
 	"fmt"
+	"reflect"
 	"strconv"
 	"strings"
 
@@ -278,7 +279,7 @@ func (g *gimpl) Exec(line string) string {
 		}
 		g.vals = append(g.vals, rv)
 		return desc
-	case "isrow", "isfrow", "xref":
+	case "isrow", "isfrow", "xref", "specrow":
 		if len(ws) != 3 {
 			return "bad-op"
 		}
@@ -292,6 +293,20 @@ func (g *gimpl) Exec(line string) string {
 				return "bad-op"
 			}
 			return g.row(g.vals[i])
+		case "specrow":
+			// the implementation's row in the shape of the SPECIFICATION's answer: targets of
+			// non-comparable type are left open by the property (only "no panic" is required)
+			if i >= len(g.vals) {
+				return "bad-op"
+			}
+			b := []byte(g.row(g.vals[i]))
+			for k, f := range g.fvals {
+				c := len(g.vals) + k
+				if !reflect.TypeOf(f).Comparable() && b[c] != 'p' {
+					b[c] = '-'
+				}
+			}
+			return string(b)
 		case "isfrow":
 			if i >= len(g.fvals) {
 				return "bad-op"
